@@ -272,26 +272,61 @@ example : SoftmaxFacts [(10, none, 0), (42, some 3, 3), (7, some (-5), 0), (99, 
 
 /-! ## T3 Same seed, same sequence -/
 
-/-- **C33.T3** A sampler is a state-passing function of its RNG state only: the sequence of
+/-- **C33.T3** Under the hypothesis that softmax overwrites its destination without reading
+it (`hdst`; the harness checks it on the real routine with a poisoned buffer, and poisons the
+sampler's own scratch buffer), a sampler is a function of its RNG state only: the sequence of
 sampled candidates for a sequence of inputs does not depend on what an earlier use left in
-the scratch buffer.  (Equal seeds and equal inputs giving equal sequences is then just
-function application: `sampleSeq` has no other argument.) -/
+the scratch buffer.  Two samplers created with the same seed (whatever their buffers hold)
+therefore produce the same sequence on the same inputs. -/
 theorem c33_T3_same_seed_same_sequence {σ L : Type} (r : Rule) (add : Int → Int → Int)
-    (next : σ → Int × σ) (probsOf : L → List (Nat × Int)) (seed : σ) (sc₁ sc₂ : List Int)
+    (next : σ → Int × σ) (probsOf : List Int → L → List (Nat × Int))
+    (hdst : ∀ sc l, probsOf sc l = probsOf [] l) (seed : σ) (sc₁ sc₂ : List Int)
     (inputs : List L) :
     sampleSeq r add next probsOf ⟨seed, sc₁⟩ inputs = sampleSeq r add next probsOf ⟨seed, sc₂⟩ inputs := by
-  induction inputs generalizing sc₁ sc₂ with
+  induction inputs generalizing sc₁ sc₂ seed with
   | nil => rfl
   | cons l ls ih =>
     simp only [sampleSeq, sampleStep]
-    cases h : probsOf l with
-    | nil => simp only [List.cons.injEq, true_and]; exact ih sc₁ sc₂
+    rw [hdst sc₁ l, hdst sc₂ l]
+    cases h : probsOf [] l with
+    | nil => simp only [List.cons.injEq, true_and]; exact ih seed sc₁ sc₂
     | cons c cs => rfl
+
+/-- **The hypothesis is needed**: a "softmax" that lets stale destination contents leak
+through (here: it reuses the previous probabilities when the buffer is non-empty) makes two
+samplers with the same seed disagree. -/
+theorem c33_T3_stale_destination_false :
+    ¬ ∀ (probsOf : List Int → List (Nat × Int) → List (Nat × Int)) (sc₁ sc₂ : List Int)
+        (inputs : List (List (Nat × Int))),
+        sampleSeq .fixed (· + ·) (fun (s : Nat) => ((s : Int), s + 1)) probsOf ⟨1, sc₁⟩ inputs =
+        sampleSeq .fixed (· + ·) (fun (s : Nat) => ((s : Int), s + 1)) probsOf ⟨1, sc₂⟩ inputs := by
+  intro h
+  have := h (fun sc l => if sc.isEmpty then l else (l.zip sc).map (fun x => (x.1.1, x.2)))
+    [] [4, 0] [[(5, 1), (6, 3)]]
+  revert this; decide
 
 /-- The RNG advances once per non-empty input and not at all when the assertion fires. -/
 example : sampleSeq .fixed (· + ·) (fun (s : Nat) => ((s : Int) % 4, s + 1))
-    (fun (l : List (Nat × Int)) => l) ⟨0, []⟩
+    (fun _ (l : List (Nat × Int)) => l) ⟨0, []⟩
     [[(5, 1), (6, 3)], [], [(5, 1), (6, 3)], [(5, 1), (6, 3)]] =
     [some (5, 1), none, some (6, 3), some (6, 3)] := by decide
+
+/-! ## Falling off the end happens only in the rounding gap -/
+
+/-- **C33.T5e** With exact addition the walk falls off the end only if the draw is at least
+the sum of the probabilities; under the softmax facts that is a draw within `tol` of 1.  (With
+f32 addition the gap is the one between the rounded running total and 1.) -/
+theorem c33_T5_off_the_end_only_in_gap (r : Int) (cs : List (Nat × Option Int × Int))
+    (one tol : Int) (hf : SoftmaxFacts cs one tol) (hne : cs ≠ [])
+    (hend : firstExceed (· + ·) r 0 (cs.map (fun c => (c.1, c.2.2))) = none) :
+    one - tol ≤ r := by
+  have hlen : 0 < (cs.map (fun c => (c.1, c.2.2))).length := by
+    cases cs with
+    | nil => exact absurd rfl hne
+    | cons c cs => simp
+  have := firstExceed_none (· + ·) r _ 0 hend _ hlen (Nat.le_refl _)
+  rw [List.take_length, runSum_exact] at this
+  have h1 := hf.sum.1
+  omega
 
 end RtenVerif.Sampler
